@@ -269,6 +269,14 @@ def check(tier):
                     okop = isinstance(op, (ast.NotEq, ast.NotIn)) and len(comp.ops) == 1 and len(other) == 1
                     rep.check(okop, 'C05.compare', cfile, cfn.name, src(comp), st.lineno,
                               'the generated check character is not compared with != / not in against the number')
+                    if okop and isinstance(op, ast.NotIn):
+                        # `x not in (gen_a(p), gen_b(p))`: the position accepts the results of several rules, so the character the
+                        # public generator gives is not the only one validate() accepts
+                        side = [s_ for s_ in sides if any(x is call for x in ast.walk(s_))][0]
+                        if isinstance(side, (ast.Tuple, ast.List, ast.Set)) and len(side.elts) > 1:
+                            rep.fail('C05.compare', cfile, cfn.name, src(comp)[:140], st.lineno,
+                                     'the check position is compared with %d alternatives (%s): besides the character %s() generates, validate() accepts '
+                                     'the others for the same payload' % (len(side.elts), ', '.join(src(e_)[:40] for e_ in side.elts), g))
                     if okop:
                         disjoint_check(rep, prog, cfile, cfn, call, other[0], st, gkey)
                 elif isinstance(st, ast.If) and raises_checksum(st) is False and 'endswith' in src(st.test) and any(
